@@ -15,6 +15,7 @@ uint64_t RuleSpec::signature() const {
   h.u64(collapse);
   h.u64(pad);
   h.u64(force);
+  if (empty) h.u64(77);
   uint64_t v = h.get() >> 2; // stays positive as sqlite int64
   return v ? v : 1;
 }
@@ -31,7 +32,7 @@ Json RuleSpec::toJson() const {
   Json c = Json::arr();
   for (auto& x : disc) c.push(Json::obj().set("k", x.k).set("on", x.on).set("mod", (int64_t)x.mod).set("rem", (int64_t)x.rem));
   j.set("disc", c);
-  j.set("collapse", (int64_t)collapse).set("pad", (int64_t)pad).setb("force", force).set("mode", mode).set("delay", (int64_t)delayUs);
+  j.set("collapse", (int64_t)collapse).set("pad", (int64_t)pad).setb("force", force).setb("empty", empty).set("mode", mode).set("delay", (int64_t)delayUs);
   return j;
 }
 
@@ -49,6 +50,7 @@ RuleSpec RuleSpec::fromJson(const Json& j) {
   r.collapse = (unsigned)j.getn("collapse");
   r.pad = (unsigned)j.getn("pad");
   r.force = j.getb("force");
+  r.empty = j.getb("empty");
   r.mode = (int)j.getn("mode");
   r.delayUs = (unsigned)j.getn("delay");
   return r;
@@ -102,6 +104,7 @@ void Program::normalise() {
 
 std::string computeValue(const RuleSpec& r, const std::map<int, std::string>& regular,
                          const std::map<int, std::string>& reads) {
+  if (r.empty) return std::string();
   util::Hasher h;
   h.str(r.key);
   h.u64(r.salt);
